@@ -13,6 +13,7 @@ import (
 	"github.com/opencontainers/go-digest"
 	ocispec "github.com/opencontainers/image-spec/specs-go/v1"
 	"oras.land/oras-go/v2/content/oci"
+	orasreg "oras.land/oras-go/v2/registry"
 	"oras.land/oras-go/v2/registry/remote"
 	"oras.land/oras-go/v2/zsim/simrt"
 )
@@ -26,6 +27,7 @@ type ListParams struct {
 	ClientN    int        `json:"client_n,omitempty"`
 	Profile    RegProfile `json:"profile"`
 	Last       string     `json:"last,omitempty"`
+	Helper     bool       `json:"helper,omitempty"` // go through registry.Tags / registry.Referrers, which collect all pages
 	FailAtPage int        `json:"fail_at_page,omitempty"` // callback fails at this page (1-based; 0 = never)
 	MaxMeta    int64      `json:"max_meta,omitempty"`
 	Pad        int        `json:"pad,omitempty"`
@@ -112,6 +114,9 @@ func (p *listProp) Gen(r *Rand, tier string, idx int) any {
 	}
 	if r.Chance(0.2) {
 		lp.FailAtPage = r.Range(1, 3)
+	}
+	if (lp.Kind == "tags" || lp.Kind == "referrers") && lp.Last == "" && lp.FailAtPage == 0 && r.Chance(0.25) {
+		lp.Helper = true
 	}
 	if r.Chance(0.35) && lp.Kind != "ocitags" {
 		lp.MaxMeta = int64(r.Range(200, 1500))
@@ -249,6 +254,13 @@ func (p *listProp) run(rc *RunCtx, lp *ListParams, info *RunInfo) *Verdict {
 		case "tags":
 			repo, _ := remote.NewRepository(host + "/" + repoName)
 			repo.Client, repo.TagListPageSize, repo.MaxMetadataBytes = client, lp.ClientN, lp.MaxMeta
+			if lp.Helper {
+				var all []string
+				if all, callErr = orasreg.Tags(ctx, repo); callErr == nil {
+					callErr = fn(all)
+				}
+				return
+			}
 			callErr = repo.Tags(ctx, lp.Last, fn)
 		case "repositories":
 			r, _ := remote.NewRegistry(host)
@@ -257,6 +269,17 @@ func (p *listProp) run(rc *RunCtx, lp *ListParams, info *RunInfo) *Verdict {
 		case "referrers":
 			repo, _ := remote.NewRepository(host + "/" + repoName)
 			repo.Client, repo.ReferrerListPageSize, repo.MaxMetadataBytes = client, lp.ClientN, lp.MaxMeta
+			if lp.Helper {
+				var ds []ocispec.Descriptor
+				if ds, callErr = orasreg.Referrers(ctx, repo, subject, lp.FilterAT); callErr == nil {
+					var items []string
+					for _, d := range ds {
+						items = append(items, refDigests[d.Digest.String()])
+					}
+					callErr = fn(items)
+				}
+				return
+			}
 			callErr = repo.Referrers(ctx, subject, lp.FilterAT, func(ds []ocispec.Descriptor) error {
 				var items []string
 				for _, d := range ds {
